@@ -319,7 +319,7 @@ EXPLANATION = ('Lean theorems about State.bind / parseKey (accepted implies regi
 
 
 def gen_case(rng):
-  regs = G.gen_registry(rng, rng.randint(2, 3))
+  regs = G.gen_registry(rng, rng.randint(2, 3), w_posonly=0.25)
   for r in regs:   # C11 only binds: a pass-through decorator under gin must not widen what is bindable
     if r['_kind'] == 'fn' and rng.random() < 0.3:
       r['_decorated'] = rng.choice([1, 1, 2, 3])
